@@ -382,6 +382,43 @@ func (k *l1Kind) snapshot() tr.M {
 	}
 	sortByInt(byger, "x")
 	s["byger"] = byger
+	// leaves by block: the latest one up to a block, the first one from a block on, the first and the last of all
+	nums := map[uint64]bool{1: true}
+	for _, b := range k.hist {
+		nums[b.num], nums[b.num+1] = true, true
+		if b.num > 1 {
+			nums[b.num-1] = true
+		}
+	}
+	byblock := []tr.M{}
+	for b := range nums {
+		m := tr.M{"b": b}
+		l, err := k.node.GetLatestInfoUntilBlock(ctx, b)
+		m["uc"] = classify(err)
+		if err == nil {
+			m["ui"] = l.L1InfoTreeIndex
+		}
+		l, err = k.node.GetFirstInfoAfterBlock(b)
+		m["ac"] = classify(err)
+		if err == nil {
+			m["ai"] = l.L1InfoTreeIndex
+		}
+		byblock = append(byblock, m)
+	}
+	sortByInt(byblock, "b")
+	s["byblock"] = byblock
+	ends := tr.M{}
+	fl, err := k.node.GetFirstInfo()
+	ends["fc"] = classify(err)
+	if err == nil {
+		ends["fi"] = fl.L1InfoTreeIndex
+	}
+	ll, err := k.node.GetLastInfo()
+	ends["lc"] = classify(err)
+	if err == nil {
+		ends["li"] = ll.L1InfoTreeIndex
+	}
+	s["ends"] = ends
 	lr, err := k.node.GetLastL1InfoTreeRoot(ctx)
 	lm := tr.M{"c": classify(err)}
 	if err == nil {
